@@ -104,3 +104,15 @@ contract(
              "len(t.sent) == before + 1", "count(before) != count(before - 1)",
              "count(before) == spec.seq.successor(count(before - 1), 1, 65535)"],
     props=["C17", "C10"])
+
+# SLC data-log queue: n reads and the queue-clearing read are n + 1 connected messages with successive counts
+contract(
+    id="sequence.slc.datalog_queue", func="pycomm3.slc_driver.SLCDriver.get_datalog_queue", call="d.get_datalog_queue(n, 0)",
+    bind={"n": ["1", "3"]}, params={"session": P.int(1, 0xFFFFFFFF), "cid": P.bytes(len=4), "head": P.bytes(len=46)},
+    requires=["spec.encap.le(head, 8, 4) == 0"],
+    setup=["d = pycomm3.slc_driver.SLCDriver('10.0.0.1')", "d._session = session", "d._target_cid = cid", "d._target_is_connected = True",
+           "d._connection_opened = True", "t = spec.env.Transport([spec.pccc.pccc_reply(head, 0, b'entry')] * (n + 1))", "d._sock = t",
+           "count = lambda k: spec.encap.try_parse_frame(t.sent[k])[3][2]"],
+    ensures=["len(t.sent) == n + 1", "result == ['entry'] * n",
+             "all(count(k + 1) == spec.seq.successor(count(k), 1, 65535) for k in range(n))"],
+    props=["C17"], max_paths=20000)
